@@ -788,7 +788,7 @@ impl<'a> Gen<'a> {
         let body = Expr::Block(stmts, Box::new(unit_expr()));
         Expr::Block(
             vec![Stmt::Let(k, u32t.clone(), Expr::Lit(u32t, BigInt::zero()))],
-            Box::new(Expr::Loop(limit, Box::new(body))),
+            Box::new(Expr::Loop(limit, ty.clone(), Box::new(body))),
         )
     }
 
@@ -1162,7 +1162,7 @@ fn cost_expr(e: &Expr, fc: &[f64], me: usize, self_sites: &mut u32) -> f64 {
             }
             t + c(tail)
         }
-        Expr::Loop(l, b) => (*l as f64 + 1.0) * c(b),
+        Expr::Loop(l, _, b) => (*l as f64 + 1.0) * c(b),
         Expr::While(l, x, b) => (*l as f64 + 1.0) * (c(x) + c(b)),
         Expr::Call(f, args) => {
             let mut t = 0.0;
